@@ -32,8 +32,10 @@ def declarations(rng, with_shared):
         elif c < .8:
             # explicit defaults, falsy ones included, over types whose own default differs (None, or a user default)
             U = E.EDataType(f'U{k}', int, rng.choice([None, 4, 100]))
-            decls.append(('int', E.EAttribute(f'a{k}', rng.choice([E.EInt, E.EIntegerObject, U]),
-                                              default_value=rng.choice([7, 9, 0, 0]))))
+            t_, dv_ = rng.choice([E.EInt, E.EIntegerObject, U]), rng.choice([7, 9, 0, 0])
+            a_ = E.EAttribute(f'a{k}', t_, default_value=dv_)
+            a_.__dict__['_verif_declared'] = dv_       # what was written, whatever the library made of it
+            decls.append(('int', a_))
         elif c < .9:
             U = E.EDataType(f'U{k}', int, rng.choice([None, 4]))
             decls.append(('int', E.EAttribute(f'a{k}', U)))
@@ -155,6 +157,8 @@ def expected_default(kind, f):
         if kind == 'list':
             return [int(x) for x in f.defaultValueLiteral.split(',') if x]
         return int(f.defaultValueLiteral)
+    if '_verif_declared' in f.__dict__:
+        return f.__dict__['_verif_declared']
     if f.default_value is not None:
         return f.default_value
     t = f._eType
@@ -248,6 +252,56 @@ def run_case(ctx, h, with_shared, model_in, expect, nops):
         ctx.sample({'declarations': desc, 'ops': ops[:10]})
 
 
+
+def bulk_reject_pass(ctx):
+    """a never-set many-valued attribute still reads as the empty collection (eIsSet false, nothing to save) after a bulk
+    operation on it was rejected — whatever part of the batch came before the ill-typed element"""
+    from pyecore import ecore as E
+    n = 60 if ctx.quick() else 1200
+    for h in range(n):
+        rng = common.sub_rng(ctx.seed, 'C15', 'bulk', h)
+        A = E.EClass('A')
+        t = rng.choice([E.EString, E.EInt])
+        unique, ordered = rng.random() < .6, rng.random() < .8
+        f = E.EAttribute('vals', t, upper=-1, unique=unique, ordered=ordered)
+        A.eStructuralFeatures.append(f)
+        good = ['x', 'y', 'z'] if t is E.EString else [1, 2, 3]
+        bad = 3 if t is E.EString else 'three'
+        k = rng.randint(0, 3)
+        batch = good[:k] + [bad] + good[k:k + rng.randint(0, 1)]
+        for how in ('extend', 'iadd', 'update', 'assign', 'slice'):
+            x = A()
+            coll = x.vals
+            raised = None
+            try:
+                if how == 'extend':
+                    coll.extend(batch)
+                elif how == 'iadd':
+                    coll += batch
+                elif how == 'update':
+                    if not hasattr(coll, 'update'):
+                        continue
+                    coll.update(batch)
+                elif how == 'assign':
+                    x.vals = batch
+                else:
+                    coll[0:0] = batch
+            except Exception as e:
+                raised = type(e).__name__
+            ctx.evaluations += 1
+            ctx.count(f'bulk/{how}/' + ('rejected' if raised else 'accepted'))
+            if raised is None:
+                continue
+            ctx.nontriv(('bulk', h, how))
+            now = list(x.vals)
+            if now or x.eIsSet(f):
+                ctx.violate({'clause': 'default-after-rejected-bulk', 'trigger': 'none'},
+                            f'never-set many-valued attribute ({t.name}, unique={unique}) after a rejected {how}({batch!r}) ({raised}): '
+                            f'reads {now!r}, eIsSet {x.eIsSet(f)}',
+                            {'bulk': True, 'case': h, 'how': how, 'batch': repr(batch), 'type': t.name, 'unique': unique})
+                return
+
+
 def run(ctx):
     common.use_repo()
     n = 500 if ctx.quick() else 8000
@@ -262,6 +316,7 @@ def run(ctx):
         run_case(ctx, h, False, model_in, expect, nops)
     for h in range(n // 5):
         run_case(ctx, h, True, model_in, expect, nops)
+    bulk_reject_pass(ctx)
     out = common.run_driver('dflt', model_in)
     bad = set()
     for line, exp, got in zip(model_in, expect, out):
